@@ -151,6 +151,9 @@ func RunConvs(t *testing.T, convs []Conv, o RunOpts) (outs []*ConvOut, tap []Ev,
 			o.Setup(w, sched)
 		}
 		var wg sync.WaitGroup
+		// all conversations leave one gate in the same instant, so that their opening steps (id allocation,
+		// registration, header write) really run concurrently
+		start := make(chan struct{})
 		for i := range convs {
 			i := i
 			cv := &convs[i]
@@ -158,6 +161,7 @@ func RunConvs(t *testing.T, convs []Conv, o RunOpts) (outs []*ConvOut, tap []Ev,
 			wg.Add(1)
 			go func() {
 				defer wg.Done()
+				<-start
 				ctx := context.Background()
 				var cancel context.CancelFunc
 				if cv.TimeoutMs != 0 {
@@ -212,6 +216,8 @@ func RunConvs(t *testing.T, convs []Conv, o RunOpts) (outs []*ConvOut, tap []Ev,
 				out.EndAt = time.Now()
 			}()
 		}
+		Settle()
+		close(start)
 		alldone := make(chan struct{})
 		go func() { wg.Wait(); close(alldone) }()
 		isDone := func() bool {
